@@ -21,10 +21,10 @@ theorem replaceCallWithMember_plain_Er (cfg : Config) (cx : Cx) (lo hi : Nat) (o
     rcases getTemporalIdent_casesC obj' [] csp .expr s with ⟨hl, h⟩ | ⟨hl, s0, h, hc⟩
     · rw [h]
       exact callTail_plain_Er csi cx lo hi obj' obj method msp callee' cargs' cargs csp p2 cs2 s s obj' []
-        hw hlo hp2 ha (Nat.le_refl _) AllTA.nil (inert_lit hl) (noBlk_lit hl) (recv_lit cx lo hi obj' obj s hl hE)
+        hw hlo hp2 ha (Nat.le_refl _) AllTA.nil (inert_lit hl) (noBlk_litE hl) (recv_lit cx lo hi obj' obj s hl hE)
     · rw [h]
       exact callTail_plain_Er csi cx lo hi obj' obj method msp callee' cargs' cargs csp p2 cs2 s s0 (tempIdent s.counter) _
-        hw hlo hp2 ha (by omega) (allTA_single _ _ _) (inert_temp _ _) (noBlk_tempIdent _) (recv_temp cx lo hi obj' obj csp s s0 hc hE)
+        hw hlo hp2 ha (by omega) (allTA_single _ _ _) (inert_temp _ _) (noBlk_tempIdentE _) (recv_temp cx lo hi obj' obj csp s s0 hc hE)
 
 /-- `replace_call_expr_if_csi_method_with_member` for `X.prototype.m.call|apply(this, …)` -/
 theorem replaceCallWithMember_proto_Er (cfg : Config) (cx : Cx) (lo hi : Nat) (thisE' thisSrc member' memberSrc : Node)
@@ -35,7 +35,7 @@ theorem replaceCallWithMember_proto_Er (cfg : Config) (cx : Cx) (lo hi : Nat) (t
     (hE : Er cx lo hi thisE' thisSrc)
     (hm : Er cx lo hi member' memberSrc) (hmnl : member'.isLit = false)
     (ha : Forall2 (fun a' a => Er cx lo hi a' a ∧ DeepEr cx lo hi a' a) rest' rest)
-    (hres : ∀ member'', BRg member' member'' → ∀ σ', cx.ext σ' → ∀ X, Sim X thisSrc → ∀ Xs,
+    (hres : ∀ member'', BRg member' member'' → ∀ σ', cx.ext σ' → ∀ X, ESim X thisSrc → ∀ Xs,
       resolveCall (erase σ' member'').1 ca csp csp (.arg none X :: Xs) csp =
         .call (.member (erase σ' member'').1 (.pname ca csp) csp) (.arg none X :: Xs) csp) :
     s.counter ≤ (replaceCallWithMember cfg thisE' method msp callee' rest' csp (some member') (some ca) s).2.counter ∧
@@ -50,10 +50,10 @@ theorem replaceCallWithMember_proto_Er (cfg : Config) (cx : Cx) (lo hi : Nat) (t
     rcases getTemporalIdent_casesC thisE' [] csp .expr s with ⟨hl, h⟩ | ⟨hl, s0, h, hc⟩
     · rw [h]
       exact callTail_proto_Er csi cx lo hi thisE' thisSrc member' memberSrc method msp callee' rest' rest csp p2 cs2 ca s s
-        thisE' [] hw hlo hp2 hm hmnl ha (Nat.le_refl _) AllTA.nil (inert_lit hl) (noBlk_lit hl) (recv_lit cx lo hi thisE' thisSrc s hl hE) hres
+        thisE' [] hw hlo hp2 hm hmnl ha (Nat.le_refl _) AllTA.nil (inert_lit hl) (noBlk_litE hl) (recv_lit cx lo hi thisE' thisSrc s hl hE) hres
     · rw [h]
       exact callTail_proto_Er csi cx lo hi thisE' thisSrc member' memberSrc method msp callee' rest' rest csp p2 cs2 ca s s0
-        (tempIdent s.counter) _ hw hlo hp2 hm hmnl ha (by omega) (allTA_single _ _ _) (inert_temp _ _) (noBlk_tempIdent _)
+        (tempIdent s.counter) _ hw hlo hp2 hm hmnl ha (by omega) (allTA_single _ _ _) (inert_temp _ _) (noBlk_tempIdentE _)
         (recv_temp cx lo hi thisE' thisSrc csp s s0 hc hE) hres
 
 end IastModel
